@@ -164,6 +164,8 @@ func (c *fnCtx) builtin(in ssa.Instruction, bi *ssa.Builtin, cc *ssa.CallCommon,
 		}
 	case "recover":
 		c.hasRecov = true
+		c.em.regKey("ghost:recovered", "Int", false)
+		c.upd("ghost:recovered", "", "Int", false, "", "0", "1")
 		return c.freshVal(rt, "rec")
 	case "delete", "print", "println":
 		return nil
@@ -218,6 +220,7 @@ func (c *fnCtx) appendBuiltin(in ssa.Instruction, cc *ssa.CallCommon, rt types.T
 	inpl := c.em.define("inplace", "Bool", "(<= "+nlen+" "+s.T[3]+")")
 	c.appendFrame(in, cc, s, inpl, tlen)
 	fresh := c.newRef("aarr")
+	c.em.assert(fmt.Sprintf("(=> %s (= (atype %s) %d))", c.reach[c.curB], fresh, c.eng.elemTypeID(st.Elem())))
 	ncap := c.em.fresh("acap")
 	c.em.decl(ncap, "Int")
 	c.em.assert(fmt.Sprintf("(and (>= %s %s) (<= %s %s))", ncap, nlen, ncap, maxLen))
